@@ -389,3 +389,40 @@ pub fn rescale(p: &Prog, k: f32) -> Prog {
     }
     Prog { nodes, n_vars: p.n_vars, outputs: p.outputs.iter().map(|o| map[*o as usize]).collect() }
 }
+
+/// The same scene somewhere else: `f'(p) = f(p - c)` (every use of X, Y, Z
+/// becomes `axis - c`)
+pub fn shift(p: &Prog, c: [f32; 3]) -> Prog {
+    use crate::gen_::prog::{Bin, PNode};
+    let mut nodes: Vec<PNode> = Vec::with_capacity(p.nodes.len() + 8);
+    let mut map: Vec<u32> = Vec::with_capacity(p.nodes.len());
+    for n in &p.nodes {
+        let m = match *n {
+            PNode::Var(i) if i < 3 => {
+                nodes.push(PNode::Var(i));
+                nodes.push(PNode::Const(c[i as usize]));
+                let (a, k) = (nodes.len() as u32 - 2, nodes.len() as u32 - 1);
+                nodes.push(PNode::Bin(Bin::Sub, a, k));
+                nodes.len() as u32 - 1
+            }
+            PNode::Var(i) => {
+                nodes.push(PNode::Var(i));
+                nodes.len() as u32 - 1
+            }
+            PNode::Const(k) => {
+                nodes.push(PNode::Const(k));
+                nodes.len() as u32 - 1
+            }
+            PNode::Un(o, a) => {
+                nodes.push(PNode::Un(o, map[a as usize]));
+                nodes.len() as u32 - 1
+            }
+            PNode::Bin(o, a, b) => {
+                nodes.push(PNode::Bin(o, map[a as usize], map[b as usize]));
+                nodes.len() as u32 - 1
+            }
+        };
+        map.push(m);
+    }
+    Prog { nodes, n_vars: p.n_vars, outputs: p.outputs.iter().map(|o| map[*o as usize]).collect() }
+}
